@@ -10,5 +10,6 @@ import (
 	_ "verif/props/c06"
 	_ "verif/props/c07"
 	_ "verif/props/c09"
+	_ "verif/props/c10"
 	_ "verif/props/smoke"
 )
